@@ -25,7 +25,7 @@ class TLCResult:
 
 
 def run(module, cfg, workers=1, simulate=None, depth=None, seed=0, timeout=3600, env=None, cwd=None,
-        coverage=False, extra=(), deadlock=False, xss="64m", heap="4g", to_file=None):
+        coverage=False, extra=(), deadlock=False, xss="64m", heap="4g", to_file=None, simulate_file=None):
     """module: name of a .tla in spec/ (or absolute path); cfg: cfg file name in spec/ or absolute path."""
     cwd = cwd or SPEC
     meta = tempfile.mkdtemp(prefix="tlc-meta-")
@@ -34,7 +34,7 @@ def run(module, cfg, workers=1, simulate=None, depth=None, seed=0, timeout=3600,
     if not deadlock:
         cmd.append("-deadlock")   # disables deadlock checking
     if simulate is not None:
-        cmd += ["-simulate", f"num={simulate}"]
+        cmd += ["-simulate", (f"file={simulate_file}," if simulate_file else "") + f"num={simulate}"]
         cmd += ["-seed", str(seed)]
     if depth is not None:
         cmd += ["-depth", str(depth)]
